@@ -19,6 +19,7 @@ import (
 
 	"com.tuntun.rangers/node/src/common"
 	"com.tuntun.rangers/node/src/middleware"
+	"com.tuntun.rangers/node/src/middleware/db"
 	"com.tuntun.rangers/node/src/middleware/types"
 	"com.tuntun.rangers/node/src/service"
 	"com.tuntun.rangers/node/src/storage/account"
@@ -775,6 +776,7 @@ type mblock struct {
 	hdr    *types.BlockHeader
 	txs    []*types.Transaction
 	raw    []byte
+	writes int64 // store writes its delivery made when the tree was built (creation order)
 }
 
 func (b *mblock) name() string {
@@ -994,9 +996,11 @@ func buildTree(t *rapid.T) *tree {
 		mb := &mblock{id: i, parent: parent, hdr: bh, txs: txs, raw: raw}
 		tr.blocks = append(tr.blocks, mb)
 		tr.byHash[bh.Hash] = mb
+		w0 := db.VerifWriteCount()
 		if p := safely(func() { ch.AddBlockOnChain(blk) }); p != nil {
 			t.Fatalf("AddBlockOnChain panicked in builder on %s: %v", mb.name(), p)
 		}
+		mb.writes = db.VerifWriteCount() - w0
 		if err := checkPoolAgainstChain(tr.txs, evicted, fmt.Sprintf("builder after %s", mb.name())); err != nil {
 			t.Fatalf("%v\ntree: %s", err, tr.describe())
 		}
@@ -1050,12 +1054,62 @@ func TestReorgHistories(t *testing.T) {
 		head := tr.genesis
 		reorgs, txReorgs := 0, 0
 		var trace []string
+		// in half of the histories the process dies inside one delivery, at a generated store write (all later
+		// writes are lost), and is restarted: what the chain then holds and what the pool refuses must still agree
+		crashStep, crashWrite := -1, int64(0)
+		if rapid.Bool().Draw(t, "withCrash") {
+			crashStep = rapid.IntRange(0, len(order)-1).Draw(t, "crashStep")
+			crashWrite = int64(rapid.IntRange(1, 24).Draw(t, "crashWrite"))
+			// when the blocks are replayed in creation order the delivery makes the same writes as in the builder:
+			// aim at its last writes (where head pointer, marks and pool records are finalised) as often as at any
+			replayed := true
+			for i := 0; i <= crashStep; i++ {
+				if i >= len(tr.blocks) || order[i].id != tr.blocks[i].id {
+					replayed = false
+				}
+			}
+			if w := order[crashStep].writes; replayed && w > 0 {
+				back := int64(rapid.IntRange(0, 3).Draw(t, "crashFromEnd"))
+				if rapid.Bool().Draw(t, "crashNearEnd") && w-back >= 1 {
+					crashWrite = w - back
+				} else {
+					crashWrite = int64(rapid.IntRange(1, int(w)).Draw(t, "crashWriteIn"))
+				}
+				stats.Class("p2_crash_aimed_within_known_write_count")
+			}
+		}
 		for step, b := range order {
 			blk, err := types.UnMarshalBlock(b.raw)
 			if err != nil {
 				t.Fatalf("VERIF-INCONCLUSIVE cannot re-parse own block: %v", err)
 			}
 			var res types.AddBlockResult
+			if step == crashStep {
+				db.VerifArmCrash(crashWrite)
+				safely(func() { res = boot.Chain().AddBlockOnChain(blk) })
+				dropped := db.VerifDisarm()
+				if err := n.Restart(); err != nil {
+					t.Fatalf("restart after a crash at store write %d of the delivery of %s failed: %v\ntree: %s\ntrace: %v", crashWrite, b.name(), err, tr.describe(), trace)
+				}
+				for _, tx := range tr.txs {
+					boot.Pool().AddTransaction(copyTx(tx)) // what is executed on the chain must be refused
+				}
+				trace = append(trace, fmt.Sprintf("%s->crash@%d(dropped %d)+restart", b.name(), crashWrite, dropped))
+				if dropped > 0 {
+					stats.Class("p2_crash_inside_delivery")
+				} else {
+					stats.Class("p2_restart_after_complete_delivery")
+				}
+				if err := checkPoolAgainstChain(tr.txs, evicted, fmt.Sprintf("step %d: crash at store write %d of the delivery of %s (%d writes lost), restart", step, crashWrite, b.name(), dropped)); err != nil {
+					t.Fatalf("%v\ntree: %s\ntrace: %v", err, tr.describe(), trace)
+				}
+				h2 := tr.byHash[boot.Chain().TopBlock().Hash]
+				if h2 == nil {
+					t.Fatalf("VERIF-INCONCLUSIVE head after restart is not a block of the tree")
+				}
+				head = h2
+				continue
+			}
 			if p := safely(func() { res = boot.Chain().AddBlockOnChain(blk) }); p != nil {
 				t.Fatalf("AddBlockOnChain(%s) panicked: %v\ntree: %s\ntrace: %v", b.name(), p, tr.describe(), trace)
 			}
@@ -1588,7 +1642,7 @@ func TestProbeAddVsMark(t *testing.T) {
 		if mp != nil {
 			t.Fatalf("MarkExecuted panicked: %v", mp)
 		}
-	case <-time.After(20 * time.Second):
+	case <-time.After(300 * time.Second):
 		t.Fatalf("VERIF-INCONCLUSIVE probe: MarkExecuted did not return")
 	}
 	ex := pool.GetExecuted(tx.Hash)
